@@ -89,6 +89,24 @@ def oracle(prog, obs):
                 wrong.append(b)
         else:
             wrong.append(b)
+    # the same clause read forwards, from the abstract program and not from what behave chose to run: a selected scenario (or
+    # outline row) whose steps pass up to a step that fails / raises / is undefined / is pending outside @wip makes the run red,
+    # whatever else happens in the run (--stop, aborts and raising hooks only add reasons to be red)
+    cfg = prog["cfg"]
+    if not obs["failed"] and not wrong and not cfg.get("dry_run") and not cfg.get("exclude_tag") and not cfg.get("wip_mode"):
+        for name, steps, tags in scenarios_of(prog):
+            if not eval_expr(expr, tags):
+                continue
+            for st in steps:
+                k = st["kind"]
+                if k in ("pass", "cleanupok"):
+                    continue
+                if k in ("fail", "error", "undefined", "cleanupraise", "abort", "kbd") or (k == "pending" and "wip" not in tags):
+                    out.append(("run reports success although the selected scenario %s has the step %d (%s) behind passing steps only"
+                                % (name, st["id"], k), "false-green"))
+                break
+            if out:
+                break
     if obs["failed"] and not wrong:
         out.append(("run reports failure but nothing went wrong (log has no failing step, undefined step, raising hook/cleanup or abort)", "false-red"))
     if wrong and not obs["failed"]:
@@ -264,6 +282,10 @@ def suites(tier, seed):
             p = rc.with_random_faults(rnd, p)
         if i % 5 == 0:
             p = rc.with_random_aborts(rnd, p)       # some hook calls context.abort() and returns
+        if i % 3 == 1 and any(x["kind"] == "outline" for f in p["features"] for it in f["items"]
+                              for x in (it["items"] if it["kind"] == "rule" else [it])):
+            # every outline also gets an 'Examples:' block without a table, before / between / behind its real blocks
+            p["cfg"]["noise"] = dict(p["cfg"].get("noise") or {}, tableless=rnd.randint(0, 5))
         cases.append(p)
     cases += wip_boundary_programs(rnd, 400 if tier == "thorough" else 90)
     projects = [{"env": e, "outcome": o, "args": a} for e in PROJECT_ENVS for o in ("pass", "fail", "undefined")
@@ -278,5 +300,6 @@ def suites(tier, seed):
     return [proj, {"name": "programs", "cases": cases, "impl": rc.impl_run, "oracle": oracle,
              "nontrivial": nontrivial, "histogram": rc.histogram, "shrink": rc.shrink_program,
              "bound": "%d seeded random programs + %d single-cause programs + @wip-boundary programs (one pending step, the wip tag "
-                      "on feature / rule / scenario / outline / one examples block)" % (n, len(single_cause_programs())),
+                      "on feature / rule / scenario / outline / one examples block); in a third of the programs with outlines every outline "
+                      "also has an Examples block without a table" % (n, len(single_cause_programs())),
              "coq": rc.COQ}]
